@@ -74,6 +74,26 @@ impl Reorg {
     #[cfg(feature = "verif")]
     crate::verif::crash_point("reorg.after_restore");
 
+    // The oldest savepoint may still contain blocks of the abandoned branch,
+    // since savepoints are not aligned to the savepoint interval. Restoring
+    // it would not undo the reorg, and the next attempt would restore the
+    // same savepoint again, forever.
+    let restored_block_count = wtx
+      .open_table(HEIGHT_TO_BLOCK_HEADER)?
+      .range(0..)?
+      .next_back()
+      .transpose()?
+      .map(|(height, _header)| height.value() + 1)
+      .unwrap_or(0);
+
+    if restored_block_count > height.saturating_sub(depth) + 1 {
+      wtx.abort()?;
+      index
+        .unrecoverably_reorged
+        .store(true, atomic::Ordering::Relaxed);
+      return Err(anyhow!(reorg::Error::Unrecoverable));
+    }
+
     Index::increment_statistic(&wtx, Statistic::Commits, 1)?;
     wtx.commit()?;
 
